@@ -19,7 +19,7 @@ VARIABLE l
 tvars == <<vars, l>>
 
 DummyQ == [maxpubs |-> 1, maxsubs |-> 1, bufmax |-> 1, hist |-> 0, borrow |-> 1, loan |-> 1,
-           overflow |-> FALSE, strategy |-> "discard"]
+           overflow |-> FALSE, strategy |-> "discard", expbuf |-> 64]
 
 TraceInit ==
     /\ l = 1
@@ -28,7 +28,7 @@ TraceInit ==
 
 QosOf(e) == [maxpubs |-> e.maxpubs, maxsubs |-> e.maxsubs, bufmax |-> e.bufmax, hist |-> e.hist,
              borrow |-> e.borrow, loan |-> e.loan, overflow |-> (e.overflow = 1),
-             strategy |-> e.strategy]
+             strategy |-> e.strategy, expbuf |-> e.expbuf]
 
 Clean(e) == e.bad = <<>>
 
@@ -42,20 +42,20 @@ Registry(e) == /\ e.np = Cardinality({p \in PubIds : pst'[p] = "live"})
 LoanAny(e) == IF e.c >= 0 THEN Loan(e.p, e.c) ELSE Loan(e.p, 1000 + nextid)
 
 Op(e) ==
-    CASE e.a = "create_pub"  -> CreatePublisher(e.p, e.n) /\ out'.r = e.r /\ Registry(e)
+    CASE e.a = "create_pub"  -> CreatePublisher(e.p, e.n, e.deg) /\ out'.r = e.r /\ Registry(e)
       [] e.a = "drop_pub"    -> DropPublisher(e.p) /\ Registry(e)
-      [] e.a = "create_sub"  -> CreateSubscriber(e.s, e.buf, e.req) /\ out'.r = e.r /\ Registry(e)
+      [] e.a = "create_sub"  -> CreateSubscriber(e.s, e.buf, e.req, e.deg) /\ out'.r = e.r /\ Registry(e)
       [] e.a = "drop_sub"    -> DropSubscriber(e.s) /\ Registry(e)
       [] e.a = "loan"        -> LoanAny(e) /\ out'.r = e.r /\ out'.id = e.id
       [] e.a = "drop_loan"   -> DropLoan(e.p, e.id)
       [] e.a = "probe"       -> ProbeLoans(e.p, e.cs) /\ out'.cnt = e.cnt /\ out'.r = e.r
-      [] e.a = "update_pub"  -> UpdatePub(e.p) /\ e.r = "ok"
+      [] e.a = "update_pub"  -> UpdatePub(e.p) /\ out'.r = e.r
       [] e.a = "send"        -> Send(e.p, e.id) /\ out'.r = e.r /\ out'.n = e.n /\ out'.blk = e.blk
       [] e.a = "recv"        -> /\ IF e.r = "some" THEN Receive(e.s, e.p) ELSE \E p \in PubIds : Receive(e.s, p)
                                 /\ out'.r = e.r /\ out'.p = e.p /\ out'.id = e.id
                                 /\ e.cok = 1                        \* byte-identical to what was written
       [] e.a = "drop_sample" -> DropSample(e.s, e.id)
-      [] e.a = "has"         -> HasSamples(e.s) /\ e.r = "ok" /\ out'.v = e.v
+      [] e.a = "has"         -> HasSamples(e.s) /\ out'.r = e.r /\ out'.v = e.v
       [] OTHER -> FALSE
 
 \* end of run: everything was released in some order; the registry seen by the observer after the
